@@ -1,5 +1,6 @@
 import AdfObdd.ServerModel
 import AdfObdd.CountModel
+import AdfObdd.NgModel
 import AdfObdd.Rebuild
 import AdfObdd.Parser4
 import AdfObdd.WfCheck
@@ -158,14 +159,25 @@ def gnodes (ns : Array Node) : List GraphM.GNode := ns.toList.map (fun n => ⟨n
 def nameOfVar (names : List String) (v : Nat) : String :=
   if v = VTOP then "TOP" else if v = VBOT then "BOT" else names.getD v "?"
 
+/-- the node set of `DoubleLabeledGraph::from_adf_and_ac`: the expansion loop from the roots -/
+def nodeSet (ns : Array Node) (ac : List Nat) : List Nat :=
+  (GraphM.expandD (gnodes ns) (ns.size + 2) [] (GraphM.dedupN ac)).getD []
+
+/-- `![Var::TOP, Var::BOT].contains(&node.var())` -/
+def isInner (ns : Array Node) (i : Nat) : Bool :=
+  match ns[i]? with
+  | some n => n.var != VTOP && n.var != VBOT
+  | none => false
+
+def rootsOf (names : List String) (ac : List Nat) (i : Nat) : List String :=
+  ((List.range ac.length).filter (fun s => ac.getD s 0 == i)).map (fun s => names.getD s "?")
+
 /-- `DoubleLabeledGraph::from_adf_and_ac` on a node table, the ordering's names and the roots `ac` -/
 def graphOf (names : List String) (ns : Array Node) (ac : List Nat) : GraphD :=
-  let set := (GraphM.expand (gnodes ns) (ns.size + 2) [] ac.eraseDups).getD []
+  let set := nodeSet ns ac
   let ids := (List.range ns.size).filter (fun i => set.contains i)
-  let inner := ids.filter (fun i => match ns[i]? with | some n => n.var != VTOP && n.var != VBOT | none => false)
-  { nodes := ids.map (fun i =>
-      ⟨i, nameOfVar names ((ns.getD i ⟨VTOP, 0, 0⟩).var),
-       ((List.range ac.length).filter (fun s => ac.getD s 0 == i)).map (fun s => names.getD s "?")⟩),
+  let inner := ids.filter (isInner ns)
+  { nodes := ids.map (fun i => ⟨i, nameOfVar names ((ns.getD i ⟨VTOP, 0, 0⟩).var), rootsOf names ac i⟩),
     lo := inner.map (fun i => (i, (ns.getD i ⟨0, 0, 0⟩).lo)),
     hi := inner.map (fun i => (i, (ns.getD i ⟨0, 0, 0⟩).hi)) }
 
@@ -289,37 +301,70 @@ def walk (g : GraphD) (names : List String) (σ : Asg) : Nat → Nat → Option 
         | some v => walk g names σ fuel (if σ v then h.2 else l.2)
     | _, _ => none
 
-/-- the graph is a faithful picture: exactly the reachable nodes with the right labels and edges, and
-walking from the root labelled `s` evaluates `s`'s condition under every total assignment that
-extends the shown model -/
+/-- enough fuel for `walk`: more than every node id (children have smaller ids in an ordered table) -/
+def walkFuel (g : GraphD) : Nat := (g.nodes.map (·.id)).foldl max 0 + 2
+
+/-- nodes reachable from the roots along the DTO's own edges -/
+def reachGraph (g : GraphD) (roots : List Nat) : List Nat :=
+  let stepS := fun (s : List Nat) =>
+    (s ++ s.flatMap (fun i => ((g.lo ++ g.hi).filter (fun e => e.1 == i)).map (·.2))).eraseDups
+  (List.range (g.nodes.length + 1)).foldl (fun s _ => stepS s) roots.eraseDups
+
+def strictlyIncreasing : List Nat → Bool
+  | a :: b :: r => a < b && strictlyIncreasing (b :: r)
+  | _ => true
+
+/-- the graph is a faithful picture: its node set is exactly what is reachable from the roots along
+lo/hi edges (no dangling edge, no unreachable node, every node an inner node with one lo and one hi
+edge or one of the terminals `0`/`1`), it agrees with the stored node table wherever that table has
+the node (nodes created while solving are beyond it), root labels are right, and walking from the
+root labelled `s` evaluates `s`'s condition under every total assignment that extends the shown model -/
 def graphOK (code : String) (a : SAdf) (ac : List Nat) (g : GraphD) : String :=
   match conditions code with
   | .error _ => "violated graph-for-unparseable-code"
   | .ok (names, fs) =>
     let ns := a.nodes
     let n := fs.length
-    if ac.length != n then "violated ac-length" else
-    let reach := reachSpec ns ac
-    if g.nodes.map (·.id) != reach then s!"violated node-set {natsW (g.nodes.map (·.id))} expected {natsW reach}" else
+    let ids := g.nodes.map (·.id)
+    if ac.length != n then "violated ac-length"
+    else if !strictlyIncreasing ids then "violated node-ids-not-distinct"
+    else
+    let reach := reachGraph g ac
+    if !(ids.all (fun i => reach.contains i) && reach.all (fun i => ids.contains i)) then
+      s!"violated node-set {natsW ids} reachable {natsW reach}"
+    else
     match g.nodes.find? (fun nd =>
-        nd.label != nameOfVar names ((ns.getD nd.id ⟨VTOP, 0, 0⟩).var) ||
-        nd.roots != ((List.range n).filter (fun s => ac.getD s 0 == nd.id)).map (fun s => names.getD s "?")) with
-    | some nd => s!"violated labels-of-node {nd.id}"
+        let los := g.lo.filter (fun e => e.1 == nd.id)
+        let his := g.hi.filter (fun e => e.1 == nd.id)
+        let terminal := los.isEmpty && his.isEmpty
+        let inner := los.length == 1 && his.length == 1
+        !((terminal && ((nd.id == 0 && nd.label == "BOT") || (nd.id == 1 && nd.label == "TOP"))) ||
+          (inner && nd.id ≥ 2 && names.contains nd.label))) with
+    | some nd => s!"violated shape-of-node {nd.id}"
     | none =>
-      let inner := reach.filter (fun i => match ns[i]? with | some nd => nd.var != VTOP && nd.var != VBOT | none => false)
-      if sortPairs g.lo != inner.map (fun i => (i, (ns.getD i ⟨0, 0, 0⟩).lo)) then "violated lo-edges"
-      else if sortPairs g.hi != inner.map (fun i => (i, (ns.getD i ⟨0, 0, 0⟩).hi)) then "violated hi-edges"
-      else
-        -- the shown model as a three-valued interpretation
-        let w : WebSem.I3 := ac.map (fun t => if t == 1 then some true else if t == 0 then some false else none)
-        let bad := (List.range n).find? (fun s =>
-          match g.nodes.find? (fun nd => nd.roots.contains (names.getD s "?")) with
-          | none => true
-          | some root =>
-            (WebSem.completions n w).any (fun m =>
-              walk g names (WebSem.asgOf m) (g.nodes.length + 1) root.id != some ((fs.getD s Fm.bot).sem (WebSem.asgOf m))))
-        match bad with
-        | some s => s!"violated walk-from-root-of-statement {s}"
-        | none => "ok"
+    match g.nodes.find? (fun nd =>
+        nd.roots != ((List.range n).filter (fun s => ac.getD s 0 == nd.id)).map (fun s => names.getD s "?")) with
+    | some nd => s!"violated root-labels-of-node {nd.id}"
+    | none =>
+    match g.nodes.find? (fun nd =>
+        match ns[nd.id]? with
+        | none => false
+        | some t =>
+          nd.label != nameOfVar names t.var ||
+          (nd.id ≥ 2 && (g.lo.find? (fun e => e.1 == nd.id) != some (nd.id, t.lo) ||
+                         g.hi.find? (fun e => e.1 == nd.id) != some (nd.id, t.hi)))) with
+    | some nd => s!"violated differs-from-stored-table-at-node {nd.id}"
+    | none =>
+      -- the shown model as a three-valued interpretation
+      let w : WebSem.I3 := ac.map (fun t => if t == 1 then some true else if t == 0 then some false else none)
+      let bad := (List.range n).find? (fun s =>
+        match g.nodes.find? (fun nd => nd.roots.contains (names.getD s "?")) with
+        | none => true
+        | some root =>
+          (WebSem.completions n w).any (fun m =>
+            walk g names (WebSem.asgOf m) (walkFuel g) root.id != some ((fs.getD s Fm.bot).sem (WebSem.asgOf m))))
+      match bad with
+      | some s => s!"violated walk-from-root-of-statement {s}"
+      | none => "ok"
 
 end ServerAdf
